@@ -353,6 +353,13 @@ def oracle_match(ctx, case, src_g, src_arr, tgt_g, res, tol, cv, mode='CONSTANT'
         ctx.fail(case, {'what': 'shape of matched volume differs from target', 'got': shape, 'want': tgt_g['shape']},
                  site='match_geometry/shape')
         return False
+    # the result keeps the SOURCE's frame of reference and coordinate system (match_keeps_frame_of_reference)
+    got_for = None if res.frame_of_reference_uid is None else str(res.frame_of_reference_uid)
+    if got_for != src_g['for'] or str(res.coordinate_system.value) != src_g['cs']:
+        ctx.fail(case, {'what': 'matched volume does not carry the frame of reference / coordinate system of the source',
+                        'got': [got_for, str(res.coordinate_system.value)], 'want': [src_g['for'], src_g['cs']]},
+                 site='match_geometry/frame-of-reference')
+        ok = False
     ra = frac_affine(res.affine)
     ta = [F(float(x)) for x in affine12(tgt_g)]
     if not indep_geq_entries(ra, ta, tol, slack=F(1) + F(1, 2 ** 20)):
